@@ -15,6 +15,7 @@ import (
 	"github.com/cosmos/gogoproto/proto"
 	"pgregory.net/rapid"
 
+	"verif/harness/attest"
 	"verif/harness/chain"
 	"verif/harness/sim"
 )
@@ -397,6 +398,14 @@ func RunC18Proc(t *testing.T) {
 		cases = append(cases, c)
 		worlds = append(worlds, w)
 	})
+	// each history is followed by a variant: the same transaction bytes from a genesis whose attesters are
+	// other keys (every attestation is then invalid). Memory retained outside the store makes the variant
+	// behave differently depending on whether the original ran before it in the same process.
+	var all []*c18case
+	for _, c := range cases {
+		all = append(all, c, attesterVariant(c))
+	}
+	cases = all
 	v, harness := procCompare(cases)
 	if harness != "" {
 		t.Fatalf("HARNESS %s", harness)
@@ -405,10 +414,21 @@ func RunC18Proc(t *testing.T) {
 		saveFail("C18", "c18-proc", cases, v)
 		t.Fatalf("VIOLATION %s", v)
 	}
-	for i := range cases {
+	for i := range worlds {
 		nt, cls := c18nontrivial(worlds[i])
 		st.Case(nt, nil, append(cls, "replays:two-processes")...)
+		st.Case("", nil, "replays:two-processes-attester-variant")
 	}
+}
+
+// attesterVariant copies the case with every genesis attester replaced by another universe key.
+func attesterVariant(c *c18case) *c18case {
+	g := *c.Gen
+	g.Attesters = nil
+	for i := range c.Gen.Attesters {
+		g.Attesters = append(g.Attesters, attest.K(16+i).Spelling(i))
+	}
+	return &c18case{Gen: &g, Blocks: c.Blocks}
 }
 
 // procCompare replays the cases here (in order) and in a child process with another
